@@ -206,7 +206,7 @@ def job(cfg, which, tier, cfgs, ufix=None):
 
 def main(tier):
     run = check.Run(PID, tier)
-    check.JOB_BUDGET[0] = 240 if tier == "quick" else 3000
+    check.JOB_BUDGET[0] = 240 if tier == "quick" else 1500
     cfgs = configs(tier)
     check.run_jobs([(_compile, (cfgs, tier))])
     jobs = []
@@ -220,7 +220,7 @@ def main(tier):
                 if tier == "quick":
                     continue
             jobs.append((job, (cfg, which, tier, cfgs)))
-    run.extend(check.run_jobs(jobs, timeout=900 if tier == "quick" else 3600))
+    run.extend(check.run_jobs(jobs, timeout=900 if tier == "quick" else 1800))
     run.bounds += ["configurations (group, K, basis): %s" % cfgs, "u in [0,1]; Lie-group differences with rotation norm < 3", "Lie-group d/d(control) Jacobians (dvs, dgs): u fixed to 1/3 (quick) or {1/3, 3/4} plus symbolic u (thorough)"]
     run.assumptions += ["layer R", "exp oracle of C02", "cumulative basis matrices are decided separately in C20 (here the DEFINITION of the basis is used on the oracle side)"]
     return run.finish()
